@@ -1127,13 +1127,11 @@ func ImportToPath(pkgPath, pkgName string) string {
 }
 
 func (decl ImportDecl) CoqDecl() string {
-	coqPath := pathToCoqPath(decl.Path)
-	coqImportPath := strings.ReplaceAll(path.Dir(coqPath), "/", ".")
-	name := path.Base(decl.Path)
+	coqImportPath := strings.ReplaceAll(pathToCoqPath(decl.Path), "/", ".")
 	if decl.Trusted {
-		return fmt.Sprintf("From Perennial.goose_lang.trusted Require Import %s.%s.", coqImportPath, name)
+		return fmt.Sprintf("From Perennial.goose_lang.trusted Require Import %s.", coqImportPath)
 	} else {
-		return fmt.Sprintf("From Goose Require %s.%s.", coqImportPath, name)
+		return fmt.Sprintf("From Goose Require %s.", coqImportPath)
 	}
 }
 
